@@ -257,6 +257,17 @@ def run(ctx):
         for other in ALPHABET:
             jobs.append(((q_t + (True,), other + (False,)), 1, "seq", board))
             jobs.append(((other + (True,), q_t + (False,), ("query", "QB\r", False)), 1, "seq", board))
+    # a board that acknowledges the restart command like any other command ("OK for commands,
+    # each preceded by up to 100 empty reads"): the OK belongs to RB however it is spelt and
+    # however late it comes, and must not be left over for the next request
+    acking = {"rb_ack": True}
+    for spelt in ("RB\r", "rb\r", "Rb", " RB \r", "BL\r"):
+        jobs.append(((("command", spelt, True),), 2, "single", acking))
+        for other in (("query", "QB\r"), ("query", "V\r"), ("command", "SL,7\r"),
+                      ("query", "QT\r")):
+            jobs.append(((("command", spelt, False), other + (True,)), 2, "seq", acking))
+            jobs.append(((other + (False,), ("command", spelt, True), other + (True,)), 1, "seq",
+                         acking))
     # long sessions: dozens of requests on one port (a counter, a buffer, a drift that only
     # shows after many exchanges), every single deviation at every point of the session
     steady = [op for op in ALPHABET if op[1].strip() != "RB"]
@@ -289,7 +300,9 @@ def run(ctx):
         "distinct_nontrivial": part.counters.get("faulted_executions", 0),
         "rule": "every history (1 request x verbose on/off, all ordered pairs, triples over a "
                 "sub-alphabet, sessions of 40 and 61 (150) requests with one deviation anywhere, "
-                "nickname queries against boards whose nickname begins with OK, 36 six-request "
+                "nickname queries against boards whose nickname begins with OK, restart commands in five "
+                "spellings alone / before / between other requests against a board that "
+                "acknowledges them, 36 six-request "
                 "sessions alternating between two boards of different version / nickname / state "
                 "on two ports) x "
                 "every vector of environment answers with at most the stated "
@@ -310,7 +323,8 @@ def run(ctx):
     }
     assumptions = [
         "board model: firmware 2.x syntax; commands answer OK; queries answer a data line and "
-        "OK except a,i,mr,pi,qm,qg,v which answer one line; RB/BL answer nothing",
+        "OK except a,i,mr,pi,qm,qg,v which answer one line; RB/BL answer nothing (and, in a "
+        "second board variant, OK like any other command)",
         "conforming latency = at most 100 empty reads before each line; 101 = late (fault)",
         "alignment is asserted only while every environment answer so far was conforming",
         "read faults are offered at the first reads of each request and at the retry limit",
